@@ -69,7 +69,7 @@ class Frame(object):
                 self._type = "ack"
             elif frame == bytearray(b"\x00\x00\xFF\xFF\xFF"):
                 self._type = "err"
-            elif frame[3:5] == bytearray(b"\xff\xff"):
+            elif frame[3:5] == bytearray(b"\xff\xff") and len(frame) >= 8:
                 self._type = "data"
             if self.type == "data":
                 length = struct.unpack("<H", bytes(frame[5:7]))[0]
@@ -211,10 +211,10 @@ class Chipset(object):
         if self.transport is not None:
             cmd = bytearray([0xD6, cmd_code]) + cmd_data
             self.transport.write(bytes(Frame(cmd)))
-            ack = Frame(self.transport.read())
+            ack = Frame(self.transport.read() or b"\x00\x00\xff")
             if ack.type == 'ack':
-                rsp = Frame(self.transport.read())
-                if rsp.type == 'data':
+                rsp = Frame(self.transport.read() or b"\x00\x00\xff")
+                if rsp.type == 'data' and len(rsp.data) >= 2:
                     if rsp.data[0] == 0xD7 and rsp.data[1] == cmd_code + 1:
                         return rsp.data[2:]
                     else:
@@ -264,6 +264,9 @@ class Chipset(object):
         timeout = min((timeout + (1 if timeout > 0 else 0)) * 10, 0xFFFF)
         data = self.send_command(0x04,
                                  struct.pack("<H", timeout) + bytes(data))
+        if data and len(data) < 4:
+            log.error("insufficient data in response to InCommRF")
+            return None
         if data and tuple(data[0:4]) != (0, 0, 0, 0):
             raise CommunicationError(data[0:4])
         return data[5:] if data else None
@@ -319,6 +322,9 @@ class Chipset(object):
 
         data = self.send_command(0x48, data)
 
+        if data and len(data) < 7:
+            log.error("insufficient data in response to TgCommRF")
+            return None
         if data and tuple(data[3:7]) != (0, 0, 0, 0):
             raise CommunicationError(data[3:7])
 
